@@ -221,7 +221,7 @@ def rand_script(rng):
 def gen(rng, tier):
     cases = []
     # 1. short histories, crash after every prefix
-    nshort = 60 if tier == "quick" else 700
+    nshort = 60 if tier == "quick" else 1500
     for i in range(nshort):
         su = make_setup(rng, leaderless=0.05 if i % 5 == 0 else 0.0)
         h = rand_history(rng, su, rng.randint(1, 4))
@@ -236,7 +236,7 @@ def gen(rng, tier):
         for k in range(len(h) + 1):
             cases.append(build_case(rng, su, [h[:k], []], [how], script, "prefix"))
     # 2. long histories with 1-2 crash points, continuing afterwards
-    for i in range(260 if tier == "quick" else 5000):
+    for i in range(260 if tier == "quick" else 12000):
         su = make_setup(rng, leaderless=0.08 if i % 4 == 0 else 0.0)
         n = rng.randint(3, 15)
         h = rand_history(rng, su, n)
@@ -251,7 +251,7 @@ def gen(rng, tier):
         crashes = [rng.choice(["drop", "drop", "keep"]) for _ in segs]
         cases.append(build_case(rng, su, segs, crashes, rand_script(rng), "long"))
     # 3. lost commit reply: the coordinator stored the offsets, the client saw a failure; one more commit, then a true crash
-    for i in range(60 if tier == "quick" else 600):
+    for i in range(60 if tier == "quick" else 1500):
         su = make_setup(rng)
         n = rng.randint(1, 8)
         h = rand_history(rng, su, n, faults=False)
@@ -265,7 +265,7 @@ def gen(rng, tier):
         cases.append(build_case(rng, su, [h, after, []], ["drop", rng.choice(["drop", "keep"])], [], "lostreply"))
     # 4. the commit request cannot be written (nothing reaches the coordinator); the next commit must carry the marks again.
     #    A successful commit and a single mark precede it, so that at most one partition is listed
-    for i in range(50 if tier == "quick" else 500):
+    for i in range(50 if tier == "quick" else 1500):
         su = make_setup(rng)
         h = rand_history(rng, su, rng.randint(0, 6), faults=False)
         h.append(("commit", None))
